@@ -11,11 +11,8 @@ CONSTANTS
   Modes = {"call", "exec"}
   RunGaps <- GapsNone
   NRuns = 1
-  Configs <- ConfigsC13
-  RecordHist = FALSE
+  Configs <- ConfigsC13T
+  RecordHist = TRUE
 INVARIANT NoViolation
-INVARIANT AttemptsBounded
-INVARIANT InvokeWithinDeadline
-INVARIANT SleepWithinRemaining
-INVARIANT DeliveriesRelated
+INVARIANT ExportBehaviours
 CHECK_DEADLOCK FALSE
